@@ -160,9 +160,21 @@ func enumOps(r *SeqReport, kp kindPair, alphabet string, depth int, prefix strin
 
 var opsProps = []string{"C01", "C02", "C03", "C04", "C05", "C06", "C07", "C08", "C09", "C10", "C16", "C17", "C18"}
 
+// d6Props: the depth-6 enumeration of one worker kind (196 shards, 7.5 million sequences) is part of the thorough check
+// of a third of the properties each, to keep every single thorough check within tens of minutes.
+func d6Props(ki int) []string {
+	var out []string
+	for i, p := range opsProps {
+		if i%3 == ki {
+			out = append(out, p)
+		}
+	}
+	return out
+}
+
 func init() {
-	for _, kp := range []kindPair{{Plain, Fifo}, {ErrW, Prio}, {ResW, Fifo}} {
-		kp := kp
+	for ki, kp := range []kindPair{{Plain, Fifo}, {ErrW, Prio}, {ResW, Fifo}} {
+		ki, kp := ki, kp
 		// every sequence of the given length is a maximal one of its own (shorter ones are its prefixes, observed at
 		// the rest after each step)
 		for i := 0; i < len(opsAlphabet); i++ {
@@ -188,7 +200,7 @@ func init() {
 			for k := 0; k < len(opsAlphabet); k++ {
 				pre := string(opsAlphabet[i]) + string(opsAlphabet[k])
 				Register(&Scenario{
-					Name: fmt.Sprintf("seq-ops/%s/d6/%s", kp, pre), Props: opsProps, Seq: true, Only: "thorough",
+					Name: fmt.Sprintf("seq-ops/%s/d6/%s", kp, pre), Props: d6Props(ki), Seq: true, Only: "thorough",
 					SeqRun: func(r *SeqReport) {
 						r.Exhaustive = true
 						enumOps(r, kp, opsAlphabet, 6, pre)
